@@ -146,10 +146,18 @@ static int indexed_table_ref_iter_next(void *p, struct reftable_record *rec)
 			}
 			continue;
 		}
-		/* BUG */
-		if (!memcmp(it->oid.buf, ref->value.val2.target_value,
-			    it->oid.len) ||
-		    !memcmp(it->oid.buf, ref->value.val2.value, it->oid.len)) {
+		/* Only records that carry hashes can match; the value
+		 * union holds a string or nothing for the others. */
+		if ((ref->value_type == REFTABLE_REF_VAL2 &&
+		     (!memcmp(it->oid.buf, ref->value.val2.target_value,
+			      it->oid.len) ||
+		      !memcmp(it->oid.buf, ref->value.val2.value,
+			      it->oid.len))) ||
+		    (ref->value_type == REFTABLE_REF_VAL1 &&
+		     !memcmp(it->oid.buf, ref->value.val1, it->oid.len))) {
+			/* Blocks store update indices relative to the
+			 * minimum of the table. */
+			ref->update_index += it->r->min_update_index;
 			return 0;
 		}
 	}
